@@ -7,6 +7,7 @@ NCMD to it, the `C07_trigger_*` theorems characterise it trigger by trigger in d
 import SradModel.Proofs.HostC07
 
 namespace Srad.Host
+open Srad.Host.C07P
 
 /-- **Exactly when.** A step publishes a rebirth NCMD iff its input raises a reason whose switch
 is enabled and the cooldown has expired. Then it publishes exactly one, as the last effect of the
